@@ -154,6 +154,16 @@ func init() {
 			ms.gmu.Lock()
 			ms.gateAt = 0 // B never blocks
 			ms.gmu.Unlock()
+			// set=<sensor>:<avg>: while A is suspended, another sensor's smoothed value changes (A has read it already)
+			if st := a.str("set", "-"); st != "-" {
+				if parts := strings.SplitN(st, ":", 2); len(parts) == 2 {
+					if o, ok := sensors.GetSensor(cvId(parts[0])); ok {
+						if om, ok := o.(*mockSensor); ok {
+							om.avg = parseF(parts[1])
+						}
+					}
+				}
+			}
 			bDone := make(chan string, 1)
 			go func() { bDone <- run() }()
 			select {
